@@ -20,7 +20,9 @@ package main
 import (
 	"fmt"
 	"math"
+	"runtime"
 	"strings"
+	"sync"
 
 	"pipelined.dev/signal"
 )
@@ -241,7 +243,7 @@ func genMix(w *World, r *Rng, tier string, tag string) {
 // ---------------------------------------------------------------------------------------------------
 // prepared buffers for the kernel sequences
 
-const nPrepPaths = 10
+const nPrepPaths = 12
 
 // prepBuf builds a buffer of kind k that holds vals (len(vals) samples, one channel unless the path
 // says otherwise), reaching that content by route `path`. The caller reads the samples back: route 8
@@ -331,6 +333,24 @@ func prepBuf(r *Rng, k Kind, vals []uint64, path int) DynBuf {
 			g.SetSample(i, v)
 		}
 		return g
+	case 10: // an EMPTY window (Slice(p, p)) refilled by single-sample appends: shape and bit depth come from Slice
+		pad := r.Intn(3)
+		parent := Alloc(k, false, signal.Allocator{Channels: 1, Length: pad, Capacity: pad + n})
+		win := parent.Slice(pad, pad)
+		for _, v := range vals {
+			win.AppendSample(v)
+		}
+		return win
+	case 11: // an empty window refilled by an in-place Append
+		pad := r.Intn(3)
+		parent := Alloc(k, false, signal.Allocator{Channels: 1, Length: pad + n, Capacity: pad + n})
+		win := parent.Slice(pad, pad)
+		o := Alloc(k, false, signal.Allocator{Channels: 1, Length: n, Capacity: n})
+		for i, v := range vals {
+			o.SetSample(i, v)
+		}
+		win.Append(o)
+		return win
 	}
 	b := Alloc(k, false, signal.Allocator{Channels: 1, Length: n, Capacity: n})
 	for i, v := range vals {
@@ -947,6 +967,117 @@ func genBulkPoolFor(g *Kern, r *Rng, tier string, props string) {
 			bad = "panic=" + strings.ReplaceAll(p, " ", "_")
 		}
 		g.goref(props, "bulk-pool", strings.ReplaceAll(bad, " ", "_"), label)
+	}
+}
+
+// genConcurrentPool: "buffers that are checked out at the same time never share storage" with the gets and puts
+// issued by several goroutines at once (C10's clause does not say the checking-out is sequential): every goroutine
+// stamps the whole capacity of the buffer it holds with its own value, yields, and finds its stamps intact; every
+// buffer is zero and of the allocator's shape when handed out. Small and page-sized buffers; rounds in which all
+// goroutines get at the same moment after one put (a hand-over slot or a one-element cache in front of sync.Pool is
+// raced for exactly then).
+func genConcurrentPool(g *Kern, r *Rng, tier string) {
+	iters := 400
+	if tier == "thorough" {
+		iters = 4000
+	}
+	old := runtime.GOMAXPROCS(0)
+	defer runtime.GOMAXPROCS(old)
+	for ci, shape := range [][3]int{{2, 1, 3}, {1, 0, 4096}, {3, 2, 2}} {
+		ch, L, K := shape[0], shape[1], shape[2]
+		G := []int{8, 4, 16}[ci]
+		runtime.GOMAXPROCS([]int{8, 4, 16}[ci])
+		label := fmt.Sprintf("kind=i32 ch=%d L=%d K=%d goroutines=%d iters=%d", ch, L, K, G, iters)
+		var mu sync.Mutex
+		bad := ""
+		fail := func(s string) {
+			mu.Lock()
+			if bad == "" {
+				bad = s
+			}
+			mu.Unlock()
+		}
+		pool := signal.PoolAlloc[int32](signal.Allocator{Channels: ch, Length: L, Capacity: K})
+		n := iters
+		if ch*K > 1000 {
+			n = iters / 8
+		}
+		var wg sync.WaitGroup
+		for gi := 0; gi < G; gi++ {
+			wg.Add(1)
+			go func(gi int) {
+				defer wg.Done()
+				if p := try(func() {
+					for m := 0; m < n; m++ {
+						b := pool.Get()
+						if b.Channels() != ch || b.Length() != L || b.Capacity() != K {
+							fail(fmt.Sprintf("goroutine=%d iter=%d shape", gi, m))
+						}
+						full := b.Slice(0, K)
+						stamp := int32(gi*1000000 + m + 1)
+						for j := 0; j < full.Len(); j++ {
+							if full.Sample(j) != 0 {
+								fail(fmt.Sprintf("goroutine=%d iter=%d not zero at %d (holds %d)", gi, m, j, full.Sample(j)))
+								break
+							}
+						}
+						for j := 0; j < full.Len(); j++ {
+							full.SetSample(j, stamp)
+						}
+						runtime.Gosched()
+						for j := 0; j < full.Len(); j++ {
+							if full.Sample(j) != stamp {
+								fail(fmt.Sprintf("goroutine=%d iter=%d shares storage with a buffer held by another goroutine (pos %d holds %d)", gi, m, j, full.Sample(j)))
+								break
+							}
+						}
+						pool.Put(b)
+						if m%7 == 0 {
+							runtime.Gosched()
+						}
+					}
+				}); p != "" {
+					fail("panic=" + p)
+				}
+			}(gi)
+		}
+		wg.Wait()
+		// herd rounds: one buffer put back, then everybody gets at the same moment and holds
+		for rd := 0; rd < 40 && bad == ""; rd++ {
+			pool.Put(pool.Get())
+			held := make([]*signal.Buffer[int32], G)
+			var flag int32
+			var w sync.WaitGroup
+			var ready sync.WaitGroup
+			ready.Add(G)
+			var startMu sync.RWMutex
+			startMu.Lock()
+			for gi := 0; gi < G; gi++ {
+				w.Add(1)
+				go func(gi int) {
+					defer w.Done()
+					ready.Done()
+					startMu.RLock()
+					held[gi] = pool.Get()
+					startMu.RUnlock()
+				}(gi)
+			}
+			ready.Wait()
+			_ = flag
+			startMu.Unlock()
+			w.Wait()
+			seen := map[*signal.Buffer[int32]]int{}
+			for gi, b := range held {
+				if o, dup := seen[b]; dup {
+					fail(fmt.Sprintf("herd round=%d goroutines %d and %d hold the same buffer", rd, o, gi))
+				}
+				seen[b] = gi
+			}
+			for _, b := range held {
+				pool.Put(b)
+			}
+		}
+		g.goref("C10", "concurrent-pool", strings.ReplaceAll(bad, " ", "_"), label)
 	}
 }
 
